@@ -169,6 +169,19 @@ def _string_work(arg):
     return errs, n
 
 
+def _long_work(arg):
+    kind, n = arg
+    errs = []
+    k = 0
+    for c in ('(', ')', '\\', '()', ')(', '\\(', "'"):
+        s = 'a' * n + c + 'bcd'
+        k += 1
+        m = fdf_roundtrip({'topmostSubform[0].Page1[0].f1_04[0]': s, 'n' + s: 'v', 'z': 'last'})
+        if m:
+            errs.append((s, m[:200]))
+    return errs, k
+
+
 def expected_filing(solution):
     """independent rule -> ordered list of groups [(rank, seq, [form instance names])]"""
     want = []
@@ -360,6 +373,12 @@ def run(tier):
         ns += n
         for s, m in errs:
             run.violation('C19|fdf-string|' + _cls(s), dict(engine='string', text=s), f'text {s!r}: {m}')
+    # long values: a special character at every offset 0..600 of an otherwise plain text (line-wrapping, buffer limits)
+    long_items = [('long', n) for n in range(0, 601, 1)]
+    for errs, n in runner.pmap(_long_work, long_items, chunksize=20):
+        ns += n
+        for s_, m in errs:
+            run.violation('C19|fdf-long-string|' + _cls(s_), dict(engine='string', text=s_), f'text of length {len(s_)} with a special character at offset {len(s_) - 4}: {m}')
     run.count('strings', ns)
     errs, nl = limits_cases()
     run.count('limit_cases', nl)
